@@ -827,6 +827,7 @@ package yang
 //@     invariant forall k string :: visited(k) && loopentry(e.Dir[k].Kind) != CaseEntry ==> loopfresh(e.Dir[k]) && e.Dir[k].Parent == e && e.Dir[k].Name == loopentry(e.Dir[k].Name)
 //@     invariant forall k string :: visited(k) && loopentry(e.Dir[k].Kind) != CaseEntry ==> e.Dir[k].Dir != nil && loopfresh(e.Dir[k].Dir) && e.Dir[k].Dir[loopentry(e.Dir[k].Name)] == loopentry(e.Dir[k])
 //@     invariant forall k string :: visited(k) && loopentry(e.Dir[k].Kind) != CaseEntry ==> loopentry(e.Dir[k]).Parent == e.Dir[k]
+//@     invariant[an-implied-case-is-a-plain-case] forall k string :: visited(k) && loopentry(e.Dir[k].Kind) != CaseEntry ==> e.Dir[k].ListAttr == nil && e.Dir[k].Type == nil && e.Dir[k].RPC == nil && e.Dir[k].Key == "" && len(e.Dir[k].Errors) == 0 && len(e.Dir[k].Augments) == 0 && len(e.Dir[k].Deviations) == 0
 //@     invariant forall k string :: loopentry(has(e.Dir, k)) ==> !loopfresh(loopentry(e.Dir[k]))
 //@     invariant forall k1 string, k2 string :: k1 != k2 && loopentry(has(e.Dir, k1)) && loopentry(has(e.Dir, k2)) ==> loopentry(e.Dir[k1]) != loopentry(e.Dir[k2])
 //@   loop 2
